@@ -94,6 +94,7 @@ class Ctx:
                 known_hit.append((f, match))
             else:
                 new.append(f)
+        self.new = new
         for f, k in known_hit:
             lines.append('KNOWN-FINDING: property=%s %s %s [%s] %s — %s' % (
                 self.pid, k.get('id', ''), f['where'], f['rule'],
